@@ -420,7 +420,11 @@ func (fr *Frame) modularCall(fc *FuncContract, callee *ssa.Function, c *ssa.Call
 	}
 	// write set
 	if fc.Pure {
-		// nothing changes
+		// nothing changes, but the call may allocate its results
+		if len(fc.Fresh) > 0 {
+			vc.bumpWatermark(st)
+			vc.assume(pc, lt(pre.wm, st.wm))
+		}
 	} else if fc.HasMod {
 		regs, err := vc.evalRegions(env, fc.Modifies)
 		if err != nil {
